@@ -703,27 +703,27 @@ def DocROk (w : World) (sep : UInt8) : (sect : Option Bytes) → (t : Table) →
   | s, t, (i, l) :: rest =>
     LayOk l ∧ ItemROk w sep t i ∧ DocROk w sep (sectAfter s i.meaning) (t ++ entriesOf s i.meaning) rest
 
-theorem lineStep_itemR (w : World) (sep : UInt8) (hsep : Str.isWs sep = false) (i : ItemR) (l : Lay)
+theorem lineStep_itemR (w : World) (sep : UInt8) (hsep : Str.isWs sep = false) (hs0 : sep ≠ 0) (i : ItemR) (l : Lay)
     (sect : Option Bytes) (t : Table) (hok : ItemROk w sep t i) (hl : LayOk l) :
     lineStep w sep (renderItem sep i.toItem l) sect t = .ok (sectAfter sect i.meaning, t ++ entriesOf sect i.meaning) := by
   cases i with
-  | blank => exact lineStep_item w sep hsep .blank l trivial hl sect t
-  | comment text => exact lineStep_item w sep hsep (.comment text) l hok hl sect t
-  | sect name => exact lineStep_item w sep hsep (.sect name) l hok hl sect t
+  | blank => exact lineStep_item w sep hsep hs0 .blank l trivial hl sect t
+  | comment text => exact lineStep_item w sep hsep hs0 (.comment text) l hok hl sect t
+  | sect name => exact lineStep_item w sep hsep hs0 (.sect name) l hok hl sect t
   | entry name segs =>
     obtain ⟨hshape, hsegs, hcnt, hbnd⟩ := hok
     have hparse : parsestr w t (renderSegs segs) = .ok (some (finalSegs segs)) :=
       parsestrLoop_segs w t maxExpansions segs hsegs hcnt hbnd
     simp only [ItemR.toItem, ItemR.meaning]
-    rw [lineStep_entry_gen w sep hsep name (renderSegs segs) (finalSegs segs) l hl hshape sect t hparse]
+    rw [lineStep_entry_gen w sep hsep hs0 name (renderSegs segs) (finalSegs segs) l hl hshape sect t hparse]
     simp [sectAfter, entriesOf]
 
-theorem itemR_noNl (w : World) (sep : UInt8) (hsep : Str.isWs sep = false) (i : ItemR) (l : Lay) (t : Table)
+theorem itemR_noNl (w : World) (sep : UInt8) (hsep : Str.isWs sep = false) (hs0 : sep ≠ 0) (i : ItemR) (l : Lay) (t : Table)
     (hok : ItemROk w sep t i) (hl : LayOk l) : NoByte 10 (renderItem sep i.toItem l) := by
   cases i with
-  | blank => exact renderItem_noNl sep hsep .blank l trivial hl
-  | comment text => exact renderItem_noNl sep hsep (.comment text) l hok hl
-  | sect name => exact renderItem_noNl sep hsep (.sect name) l hok hl
+  | blank => exact renderItem_noNl sep hsep hs0 .blank l trivial hl
+  | comment text => exact renderItem_noNl sep hsep hs0 (.comment text) l hok hl
+  | sect name => exact renderItem_noNl sep hsep hs0 (.sect name) l hok hl
   | entry name segs =>
     obtain ⟨⟨hne, htn, hn10, hnsep, h35, h91, htv, hv10⟩, _⟩ := hok
     obtain ⟨ha, hb, hc, hd⟩ := hl
@@ -732,7 +732,7 @@ theorem itemR_noNl (w : World) (sep : UInt8) (hsep : Str.isWs sep = false) (i : 
     exact noByte_append (noByte_append (noByte_append (noByte_append (noByte_append (noByte_append
       (layWs_noByte10 ha) hn10) (layWs_noByte10 hb)) (n1 sep hs10)) (layWs_noByte10 hc)) hv10) (layWs_noByte10 hd)
 
-theorem parseLoop_renderR (w : World) (sep : UInt8) (hsep : Str.isWs sep = false) (items : List (ItemR × Lay)) :
+theorem parseLoop_renderR (w : World) (sep : UInt8) (hsep : Str.isWs sep = false) (hs0 : sep ≠ 0) (items : List (ItemR × Lay)) :
     ∀ (nl : Bool) (fuel : Nat) (sect : Option Bytes) (t : Table),
     DocROk w sep sect t items → (renderDocR sep items nl).length < fuel →
     parseLoop w sep fuel (renderDocR sep items nl) sect t =
@@ -747,7 +747,7 @@ theorem parseLoop_renderR (w : World) (sep : UInt8) (hsep : Str.isWs sep = false
     intro nl fuel sect t hok hf
     obtain ⟨i, l⟩ := x
     obtain ⟨hl, hi, hrest⟩ := hok
-    have hno := itemR_noNl w sep hsep i l t hi hl
+    have hno := itemR_noNl w sep hsep hs0 i l t hi hl
     cases fuel with
     | zero => simp at hf
     | succ f =>
@@ -758,7 +758,7 @@ theorem parseLoop_renderR (w : World) (sep : UInt8) (hsep : Str.isWs sep = false
       simp only [renderDocR, List.map_cons, List.map_nil, renderDoc, expected, List.append_nil]
       unfold parseLoop
       by_cases hR : renderItem sep i.toItem l = []
-      · have := lineStep_itemR w sep hsep i l sect t hi hl
+      · have := lineStep_itemR w sep hsep hs0 i l sect t hi hl
         rw [hR] at this
         simp only [hR, if_true]
         have h2 : lineStep w sep [] sect t = .ok (sect, t) := by
@@ -766,7 +766,7 @@ theorem parseLoop_renderR (w : World) (sep : UInt8) (hsep : Str.isWs sep = false
         rw [h2] at this
         simp only [Except.ok.injEq, Prod.mk.injEq] at this
         rw [← this.2]
-      · simp only [hR, if_false, splitLine_last _ hno, lineStep_itemR w sep hsep i l sect t hi hl]
+      · simp only [hR, if_false, splitLine_last _ hno, lineStep_itemR w sep hsep hs0 i l sect t hi hl]
         cases f with
         | zero =>
           have h1 : (renderItem sep i.toItem l).length < 1 := by simpa [renderDocR, renderDoc] using hf
@@ -783,15 +783,15 @@ theorem parseLoop_renderR (w : World) (sep : UInt8) (hsep : Str.isWs sep = false
       rw [hshape] at hf ⊢
       unfold parseLoop
       have hne : renderItem sep i.toItem l ++ 10 :: renderDocR sep rest nl ≠ [] := by simp
-      simp only [hne, if_false, splitLine_nl _ _ hno, lineStep_itemR w sep hsep i l sect t hi hl]
+      simp only [hne, if_false, splitLine_nl _ _ hno, lineStep_itemR w sep hsep hs0 i l sect t hi hl]
       rw [ih nl f _ _ hrest (by simp only [List.length_append, List.length_cons] at hf; omega)]
       simp
 
-theorem parseStr_renderR (w : World) (sep : UInt8) (hsep : Str.isWs sep = false) (items : List (ItemR × Lay))
+theorem parseStr_renderR (w : World) (sep : UInt8) (hsep : Str.isWs sep = false) (hs0 : sep ≠ 0) (items : List (ItemR × Lay))
     (nl : Bool) (hok : DocROk w sep none [] items) :
     parseStr w sep (renderDocR sep items nl) = .ok (expected none (items.map (·.1.meaning))) := by
   unfold parseStr
-  have := parseLoop_renderR w sep hsep items nl ((renderDocR sep items nl).length + 1) none [] hok (by omega)
+  have := parseLoop_renderR w sep hsep hs0 items nl ((renderDocR sep items nl).length + 1) none [] hok (by omega)
   simpa using this
 
 end Qlibc.Conf.Ini
